@@ -4,7 +4,7 @@ TRANSLATORS = []
 HARNESS = 'harness/c20.py'
 TRUSTED_BASE = [
     'Lean 4.33 kernel; axioms propext, Classical.choice, Quot.sound only (audited per theorem each run)',
-    'hand-written model lean/PysphVerif/Model/Needs.lean (checker, AccelerationEval flattening, stepper checks, pointer set-up of the generated code, precomputed closure), tied to the code by differential execution on every run (harness/c20.py)',
+    'hand-written model lean/PysphVerif/Model/Needs.lean (checker, AccelerationEval flattening, stepper checks, pointer set-up of the generated code, precomputed closure) and Model/NeedsCodegen.lean (the check / declaration / binding sites of the integrator code generator as three separate transcriptions, keys of known_types), tied to the code by differential execution on every run (harness/c20.py)',
     'the precomputed-symbol table is a parameter of every theorem; the harness feeds the model the real table (cb.symbols of Group.pre_comp) and synthetic acyclic ones',
     'the specification of "needs" is the inductive reachability relation Reach in Lemmas/Needs.lean (not the code\'s closure loop)',
     'method signatures are what inspect.getfullargspec reports (the harness passes them to the model; the oracle reads code objects instead)',
@@ -25,14 +25,20 @@ LEVEL_TEXT = ("Lean 4 theorems over every precomputed-symbol table, every list o
               "error_names_equation_and_missing, rejection_is_justified (only the strict-subset quirk rejects a complete problem), "
               "needs_are_read (the check demands nothing the generated code does not use), "
               "stepper_check_complete, stepper_reads_exist, stepper_error_names, "
+              "stepper_source_style_args_checked / stepper_bound_names_are_checked (a source-style argument s_p of a stepper is "
+              "bound to the stepped array, so p must be in THAT array; nothing is bound that was not checked), "
+              "stepper_decl_types_known / stepper_decl_total (the declaration site never raises the bare KeyError), "
+              "stepper_missing_arg_is_rejected, "
               "no_incomplete_problem_reaches_execution, plus the F10 counterexample for the checker of the pinned tree "
               "(orig_check_incomplete, orig_check_complete_partial, repair_is_conservative). The model is tied to the code "
               "on every run by differential execution against the scratch build (every shipped Equation and "
               "IntegratorStep class x removal of an explicitly / implicitly needed name x misspelt names, generated "
-              "equations, steppers through SPHCompiler._get_code()), and the property's own predicate is evaluated on "
+              "equations, generated steppers with d_* and s_* arguments / constants / one class on several arrays / every "
+              "shipped integrator class, through SPHCompiler._get_code(); the three sites check / declaration / binding of the "
+              "integrator generator are compared one by one), and the property's own predicate is evaluated on "
               "the implementation to produce replays.")
 LEVEL_NOTE = ("Trusted: Lean kernel, axioms propext/Classical.choice/Quot.sound; the hand-written model (checked by the "
-              "correspondence, ~2450 cases quick incl. all 288 shipped equation and 36 stepper classes; thorough removes every needed name of every shipped class); getfullargspec "
+              "correspondence, ~2750 cases quick incl. all 288 shipped equation and 36 stepper classes; thorough removes every needed name of every shipped class); getfullargspec "
               "as the reader of signatures. Not covered: GPU helpers, string start_idx/stop_idx of a Group, groups nested "
               "deeper than two levels (AccelerationEval raises AttributeError there), the strict-subset false rejection "
               "(an array holding exactly the needed names) which is outside the statement but modelled. The "
